@@ -274,6 +274,7 @@ tasks:
       - {cmd: echo x, silent: true, ignore_error: true, platforms: [linux], set: [x], shopt: [globstar]}
       - {defer: echo d}
       - {for: [a, b], cmd: 'echo {{.ITEM}}'}
+      - {for: {matrix: {X: {ref: .LIST}, Y: [1, 2]}}, cmd: 'echo {{.ITEM.X}}{{.ITEM.Y}}'}
 `
 		// one task per boolean attribute with only that one set (a merge that fills one flag from
 		// another shows on these; on "attr" all flags are true)
@@ -562,6 +563,11 @@ func c08GraphUnit() *Unit {
 			{"include-path-starting-with-git", map[string]string{"Taskfile.yml": "version: '3'\nincludes:\n  g: githooks/Taskfile.yml\n", "githooks/Taskfile.yml": leaf("g")}, "g:t", []string{"T=g:t PWD=proj IV="}, 0},
 			{"nested-include-path-starting-with-git", map[string]string{"Taskfile.yml": "version: '3'\nincludes:\n  mid: ./sub/mid.yml\n", "sub/mid.yml": "version: '3'\nincludes:\n  g: git-tools.yml\n", "sub/git-tools.yml": leaf("g")}, "mid:g:t", []string{"T=g:t PWD=proj IV="}, 0},
 			{"include-path-starting-with-http-word", map[string]string{"Taskfile.yml": "version: '3'\nincludes:\n  h: httpd/Taskfile.yml\n", "httpd/Taskfile.yml": leaf("h")}, "h:t", []string{"T=h:t PWD=proj IV="}, 0},
+			// "runs exactly the commands of its definition": loops of an included task, over a list, a
+			// matrix with literal rows and a matrix whose row is a reference; in cmds and in deps
+			{"included-task-with-loops", map[string]string{"Taskfile.yml": "version: '3'\nincludes:\n  lib: ./lib.yml\n",
+				"lib.yml": "version: '3'\ntasks:\n  t:\n    vars:\n      LIST: [a, b]\n    deps:\n      - for: {matrix: {X: {ref: .LIST}}}\n        task: 'dep'\n        vars: {W: '{{.ITEM.X}}'}\n    cmds:\n      - for: [l1, l2]\n        cmd: printf '%s\\n' 'list {{.ITEM}}'\n      - for: {matrix: {X: {ref: .LIST}, Y: [1, 2]}}\n        cmd: printf '%s\\n' 'matrix {{.ITEM.X}}{{.ITEM.Y}}'\n  dep:\n    cmds:\n      - printf '%s\\n' 'dep'\n"},
+				"lib:t", []string{"dep", "dep", "list l1", "list l2", "matrix a1", "matrix a2", "matrix b1", "matrix b2"}, 0},
 			{"cycle-2", map[string]string{"Taskfile.yml": "version: '3'\nincludes:\n  a: ./a.yml\n", "a.yml": "version: '3'\nincludes:\n  r: ./Taskfile.yml\n"}, "x", nil, 110},
 			{"cycle-3", map[string]string{"Taskfile.yml": "version: '3'\nincludes:\n  a: ./a.yml\n", "a.yml": "version: '3'\nincludes:\n  b: ./b.yml\n", "b.yml": "version: '3'\nincludes:\n  a: ./a.yml\n"}, "x", nil, 110},
 			{"self-include", map[string]string{"Taskfile.yml": "version: '3'\nincludes:\n  me: ./Taskfile.yml\n"}, "x", nil, 110},
